@@ -14,7 +14,7 @@ import (
 	"verifharness/kit"
 )
 
-const rule = "inputs (<= 4 KiB) for every decoder (ReadSTL + STLReader rows, ReadOFF + OFFReader rows, ReadColorPLY, PLYReader rows + NewPLYHeaderDecode, DecodeCSV + SegmentCSVReader rows): (enum-truncate) every prefix of harness-written valid files (binary/ASCII STL, OFF with polygon faces, colour PLY and generic PLY in the three encodings, CSV); (mutate) one or two single-field corruptions of a random valid file (counts / list lengths in {-1,0,1,n-1,n+1,2^31-1,2^31,2^32-1,2^63-1}, indices in {-1,n,2^31-1}, type names swapped or unknown, properties removed, tokens duplicated/deleted/swapped/inserted, byte flips); (bytes) strings drawn from a per-format token dictionary, optionally after a valid prefix. Non-trivial: a truncation or mutation of a valid file, or a byte string whose header the decoder accepted (record decoding reached). Distinct: hash of the JSON case (the bytes)."
+const rule = "inputs (<= 4 KiB) for every decoder (ReadSTL + STLReader rows, ReadOFF + OFFReader rows, ReadColorPLY, PLYReader rows + NewPLYHeaderDecode, DecodeCSV + SegmentCSVReader rows): (enum-truncate) every prefix of harness-written valid files (binary/ASCII STL, OFF with polygon faces, colour PLY and generic PLY in the three encodings, CSV); (mutate) one or two single-field corruptions of a random valid file (counts / list lengths in {-1,0,1,n-1,n+1,2^31-1,2^31,2^32-1,2^63-1}, indices in {-1,n,2^31-1}, type names swapped or unknown, properties removed, tokens duplicated/deleted/swapped/inserted, byte flips); (bytes) strings drawn from a per-format token dictionary, optionally after a valid prefix. Every input is decoded through three reader behaviours (plain, one byte per Read call, stream ending in a non-EOF error). Non-trivial: a truncation or mutation of a valid file, or a byte string whose header the decoder accepted (record decoding reached). Distinct: hash of the JSON case (the bytes)."
 
 // byteCase is the case of every clause: the exact bytes fed to the decoders
 // (base64 in JSON) and, for information only, where they came from.
@@ -153,7 +153,7 @@ func genBytes(fm *format) func(t *rapid.T) byteCase {
 
 func TestProp(t *testing.T) {
 	runtime.GOMAXPROCS(1) // the allocation meter stops the world twice per decoder call: 5x cheaper with one P
-	nfiles := 30
+	nfiles := 40
 	if kit.Tier() == "thorough" {
 		nfiles = 120
 	}
@@ -165,8 +165,8 @@ func TestProp(t *testing.T) {
 		en := "C16/" + name + "/enum-truncate"
 		clauses = append(clauses,
 			kit.Enum[byteCase]{Name: en, N: cp.total, At: cp.at, Check: enumFresh(en, checker(name, true)), Budget: budget},
-			kit.Clause[byteCase]{Name: "C16/" + name + "/mutate", Quick: 10000, Thorough: 200000, Gen: genMutate(fm), Check: checker(name, true), Budget: budget, Fresh: true},
-			kit.Clause[byteCase]{Name: "C16/" + name + "/bytes", Quick: 6000, Thorough: 120000, Gen: genBytes(fm), Check: checker(name, false), Budget: budget, Fresh: true},
+			kit.Clause[byteCase]{Name: "C16/" + name + "/mutate", Quick: 20000, Thorough: 200000, Gen: genMutate(fm), Check: checker(name, true), Budget: budget, Fresh: true},
+			kit.Clause[byteCase]{Name: "C16/" + name + "/bytes", Quick: 12000, Thorough: 120000, Gen: genBytes(fm), Check: checker(name, false), Budget: budget, Fresh: true},
 		)
 	}
 	kit.Run(t, "C16", rule, clauses...)
